@@ -46,8 +46,9 @@ CHECKS = {
         "module": "Vanguard.Props.C08", "namespace": "Vanguard.C08", "streams": ["chunk"],
         "partial": "segmentation independence is proved for the primitive exact reader (io.ReadFull/CopyN over adversarial chunkings) and for the "
                    "transcoder's message reader (the sequence of enveloped request messages and its final condition); "
-                   "handler read-buffer sizes are proved irrelevant for the re-encoding reader (any sizes >= 1, same bytes and final error); "
-                   "for the re-framing reader's read sizes and for backend write pieces and flushes it is checked metamorphically on model and implementation",
+                   "handler read-buffer sizes are proved irrelevant for the re-encoding reader (any sizes >= 1, same bytes and final error) and splitting "
+                   "the backend's output across Write calls for the re-encoding writer; for the re-framing reader's read sizes and the re-framing "
+                   "writer's write pieces and flushes it is checked metamorphically on model and implementation",
         "assumptions": E2E_ASSUME,
     },
     "C09": {
